@@ -278,10 +278,11 @@ func xEval(n *xNode, env xEnv) (xVal, error) {
 		if err != nil {
 			return c, err
 		}
-		if c.T != xBool {
+		if c.T != xBool && c.T != xInt {
 			return c, errIllTyped
 		}
-		if c.B {
+		// an int condition is taken by truthiness (null and 0 are false)
+		if (c.T == xBool && c.B) || (c.T == xInt && !c.Null && c.I != 0) {
 			return xEval(n.Kids[1], env)
 		}
 		return xEval(n.Kids[2], env)
@@ -835,7 +836,11 @@ func xGen(rt *rapid.T, t xType, d int) *xNode {
 		case 5:
 			return &xNode{Op: rapid.SampledFrom([]string{"u-", "u~"}).Draw(rt, "uop"), T: xInt, Kids: []*xNode{xGen(rt, xInt, d-1)}}
 		case 6:
-			return &xNode{Op: "?:", T: xInt, Kids: []*xNode{xGen(rt, xBool, d-1), xGen(rt, xInt, d-1), xGen(rt, xInt, d-1)}}
+			ct := xBool
+			if rapid.IntRange(0, 2).Draw(rt, "intcond") == 0 {
+				ct = xInt // truthiness condition: "$a ?? $b ? x : y", "$a + 1 ? x : y"
+			}
+			return &xNode{Op: "?:", T: xInt, Kids: []*xNode{xGen(rt, ct, d-1), xGen(rt, xInt, d-1), xGen(rt, xInt, d-1)}}
 		case 7:
 			l := &xNode{Leaf: "$n", Var: "n", T: xInt}
 			if rapid.Bool().Draw(rt, "nn") {
@@ -964,6 +969,8 @@ func c04Pairs() []*xNode {
 				}
 				out = append(out, &xNode{Op: "=", Var: "a", T: xInt, Kids: []*xNode{bin()}}, &xNode{Op: "+=", Var: "a", T: xInt, Kids: []*xNode{bin()}})
 				out = append(out, &xNode{Op: "?:", T: xInt, Kids: []*xNode{mkLeaf(xBool, set, 0), bin(), bin()}})
+				// the binary operator as an int condition taken by truthiness: "$a ?? $b ? $c : 5"
+				out = append(out, &xNode{Op: "?:", T: xInt, Kids: []*xNode{bin(), mkLeaf(xInt, set, 2), {Leaf: "77", T: xInt}}})
 			}
 			if s.l == xInt {
 				for _, u := range []string{"u-", "u~", "cast-int"} {
